@@ -59,7 +59,7 @@ def _sizes(ctx):
     # per worker chunk (14 chunks)
     if ctx.thorough():
         return {'n_resolve': 15000, 'n_schedule': 8000, 'n_tree': 1100}
-    return {'n_resolve': 1500, 'n_schedule': 1000, 'n_tree': 45}
+    return {'n_resolve': 1500, 'n_schedule': 1000, 'n_tree': 36}
 
 
 def correspond(ctx):
